@@ -1,6 +1,6 @@
 (* Extraction of the reference evaluator (shared by C02, C03 and the properties that reuse it).
    ExtrOcamlBasic only; Z/positive/nat stay Coq datatypes. *)
 From Coq Require Import ZArith ExtrOcamlBasic.
-Require Import ZV.Model.RefSem.
+Require Import ZV.Model.RefSem ZV.Model.GenF0.
 Extraction "model.ml" Z.add Z.mul Z.opp Z.div_eucl Z.of_nat Z.to_nat Z.compare
-  eval_program_cfg eval_program prim_ident all_prims cc.
+  eval_program_cfg eval_program prim_ident all_prims cc gen f0.
